@@ -212,3 +212,21 @@ Theorem C19_survivor_agree : forall w st p sp st1 ops t args tk,
            (map (fun _ => CReached (body_of w (new_obj p sp (gen st p))) recv (pbeh sp)) all_convs).
 Proof. exact survivor_agree. Qed.
 Print Assumptions C19_survivor_agree.
+
+(* The kind of VALUE the replacement returns (beh: a plain value, None, an exception instance handed
+   back as data, a FUTURE OBJECT - computed ConstFuture / unstarted task / unflushed batch item - as
+   the result, or a raise) is not looked at by any convention: a convention that reaches the
+   replacement delivers exactly what its body produced (the ConstFuture that .asynq() makes around it
+   is the only level `value` / a yield takes off), and which arguments the body receives does not
+   depend on the kind of value either.  Together with C19_survivor_agree (stated for every `pbeh sp`):
+   all four conventions deliver the very same object also when that object is itself a future. *)
+Theorem C19_result_as_is : forall i att acc who b c args who' recv b',
+  probe_conv i att acc who b c args = CReached who' recv b' -> who' = who /\ b' = b.
+Proof. exact probe_conv_result_as_is. Qed.
+Print Assumptions C19_result_as_is.
+
+Theorem C19_result_kind_irrelevant : forall i att acc who b b2 c args recv,
+  probe_conv i att acc who b c args = CReached who recv b ->
+  probe_conv i att acc who b2 c args = CReached who recv b2.
+Proof. exact probe_conv_result_kind_irrelevant. Qed.
+Print Assumptions C19_result_kind_irrelevant.
